@@ -443,6 +443,9 @@ class Clock(object):
         return getattr(self._t, k)
 
 
+CLOCK = Clock()
+
+
 def policies_from_json(pj):
     """[[name, {preset: objtable|None, groups: [[g, objtable]]|None}], …] -> engine policy dict"""
     def objtable(t):
@@ -476,8 +479,8 @@ class ImplEngine(object):
         self.dir = tempfile.mkdtemp(prefix="vimpl", dir=workdir)
         self.db = os.path.join(self.dir, "db.sqlite")
         self.scripted = scripted_crypto
-        self.clock = Clock()
-        engine_mod.time = self.clock
+        self.clock = CLOCK          # one deterministic clock shared by every engine in this process
+        engine_mod.time = CLOCK
         self.policies = copy.deepcopy(core_policy.policies)
         self.engine = None
         self._scripts = []
